@@ -4,13 +4,37 @@
 //! end, so they cost no extra wall time.
 
 use super::finding;
-use crate::engine::{guarded, Finding};
+use crate::engine::Finding;
 use crate::refmodel::packet::*;
 use crate::refmodel::schema::Val;
 use crate::refmodel::RefName;
 use serde_json::json;
 use std::net::{Ipv4Addr, UdpSocket};
 use std::time::{Duration, Instant};
+
+/// The scenarios sleep for many seconds and call into services that a defect may have wedged:
+/// they are not "one case of the code under test" for the hang monitor, so panics are caught
+/// here without its heartbeat, and calls that may never return are made on helper threads.
+fn shielded<T>(f: impl FnOnce() -> T + std::panic::UnwindSafe) -> Result<T, String> {
+    std::panic::catch_unwind(f).map_err(|e| {
+        if let Some(s) = e.downcast_ref::<&str>() {
+            s.to_string()
+        } else if let Some(s) = e.downcast_ref::<String>() {
+            s.clone()
+        } else {
+            "panic".to_string()
+        }
+    })
+}
+
+/// Run `f` on a helper thread; None if it has not returned after `limit`.
+fn within<T: Send + 'static>(limit: Duration, f: impl FnOnce() -> T + Send + 'static) -> Option<T> {
+    let (tx, rx) = std::sync::mpsc::channel();
+    std::thread::spawn(move || {
+        let _ = tx.send(f());
+    });
+    rx.recv_timeout(limit).ok()
+}
 
 enum D {
     S(simple_mdns::sync_discovery::ServiceDiscovery),
@@ -80,19 +104,29 @@ pub fn silent_peer(prop: &str, asynchronous: bool) -> Vec<Finding> {
         Ok(r) => r,
         Err(_) => return vec![],
     };
-    let r = guarded(|| -> Result<Vec<(String, String)>, String> {
+    let r = shielded(std::panic::AssertUnwindSafe(|| -> Result<Vec<(String, String)>, String> {
         let mut bad = Vec::new();
-        let mut d = start(&rt, asynchronous, "me", &svc)?;
+        let d = start(&rt, asynchronous, "me", &svc)?;
         std::thread::sleep(Duration::from_millis(300));
         let tx = sender()?;
         tx.send_to(&announcement(&svc, "ghost", 12), (Ipv4Addr::new(224, 0, 0, 251), 5353)).map_err(|e| format!("{}", e))?;
         std::thread::sleep(Duration::from_millis(13_000));
-        let alive_api = match &mut d {
+        let d = std::sync::Arc::new(std::sync::Mutex::new(d));
+        let d2 = d.clone();
+        let handle = rt.handle().clone();
+        let alive_api = within(Duration::from_secs(5), move || match &mut *d2.lock().unwrap() {
             D::S(s) => {
                 s.announce(false);
                 true
             }
-            D::A(a) => rt.block_on(a.announce(false)).is_ok(),
+            D::A(a) => handle.block_on(a.announce(false)).is_ok(),
+        });
+        let alive_api = match alive_api {
+            Some(v) => v,
+            None => {
+                bad.push(("silent-peer|announce-does-not-return".to_string(), format!("13 s after a single response from a peer that never answered again, announce() on the {} ServiceDiscovery has not returned after 5 s: the service is wedged", kind)));
+                return Ok(bad);
+            }
         };
         if !alive_api {
             bad.push(("silent-peer|announce-fails".to_string(), format!("13 s after a single response (TTL 12) from a peer that never answered again, announce() on the {} ServiceDiscovery returns an error: the service has stopped", kind)));
@@ -101,9 +135,27 @@ pub fn silent_peer(prop: &str, asynchronous: bool) -> Vec<Finding> {
         let deadline = Instant::now() + Duration::from_millis(1500);
         let mut seen = false;
         while Instant::now() < deadline {
-            if known(&rt, &d).iter().any(|n| n == "late") {
-                seen = true;
-                break;
+            let d3 = d.clone();
+            let handle = rt.handle().clone();
+            let names = within(Duration::from_secs(5), move || {
+                let g = d3.lock().unwrap();
+                let set = match &*g {
+                    D::S(s) => s.get_known_services(),
+                    D::A(a) => handle.block_on(a.get_known_services()),
+                };
+                set.iter().map(|i| i.unescaped_instance_name()).collect::<Vec<String>>()
+            });
+            match names {
+                None => {
+                    bad.push(("silent-peer|store-does-not-answer".to_string(), format!("get_known_services() on the {} ServiceDiscovery has not returned after 5 s: the store is wedged", kind)));
+                    return Ok(bad);
+                }
+                Some(v) => {
+                    if v.iter().any(|n| n == "late") {
+                        seen = true;
+                        break;
+                    }
+                }
             }
             std::thread::sleep(Duration::from_millis(50));
         }
@@ -111,10 +163,10 @@ pub fn silent_peer(prop: &str, asynchronous: bool) -> Vec<Finding> {
             bad.push(("silent-peer|receive-loop-dead".to_string(), format!("13 s after a single response (TTL 12) from a peer that never answered again, the {} ServiceDiscovery no longer ingests a new response", kind)));
         }
         Ok(bad)
-    });
+    }));
     rt.shutdown_timeout(Duration::from_millis(100));
     match r {
-        Err(pn) => vec![finding(format!("{}|longevity|{}", prop, pn.sig()), format!("{:?}", pn), case)],
+        Err(pn) => vec![finding(format!("{}|longevity|panic", prop), pn, case)],
         Ok(Err(_)) => vec![],
         Ok(Ok(bad)) => bad.into_iter().map(|(t, x)| finding(format!("{}|longevity|{}|{}", prop, t, kind), x, case.clone())).collect(),
     }
@@ -131,7 +183,7 @@ pub fn two_lifetimes(prop: &str, asynchronous: bool) -> Vec<Finding> {
         Ok(r) => r,
         Err(_) => return vec![],
     };
-    let r = guarded(|| -> Result<Vec<(String, String)>, String> {
+    let r = shielded(std::panic::AssertUnwindSafe(|| -> Result<Vec<(String, String)>, String> {
         let mut bad = Vec::new();
         let d = start(&rt, asynchronous, "watcher", &svc)?;
         std::thread::sleep(Duration::from_millis(500));
@@ -158,10 +210,10 @@ pub fn two_lifetimes(prop: &str, asynchronous: bool) -> Vec<Finding> {
             }
         }
         Ok(bad)
-    });
+    }));
     rt.shutdown_timeout(Duration::from_millis(100));
     match r {
-        Err(pn) => vec![finding(format!("{}|longevity|{}", prop, pn.sig()), format!("{:?}", pn), case)],
+        Err(pn) => vec![finding(format!("{}|longevity|panic", prop), pn, case)],
         Ok(Err(_)) => vec![],
         Ok(Ok(bad)) => bad.into_iter().map(|(t, x)| finding(format!("{}|longevity|{}|{}", prop, t, kind), x, case.clone())).collect(),
     }
@@ -177,7 +229,7 @@ pub fn still_answers_after(prop: &str, asynchronous: bool, secs: u64) -> Vec<Fin
         Ok(r) => r,
         Err(_) => return vec![],
     };
-    let r = guarded(|| -> Result<Vec<(String, String)>, String> {
+    let r = shielded(std::panic::AssertUnwindSafe(|| -> Result<Vec<(String, String)>, String> {
         let mut bad = Vec::new();
         let _d = start(&rt, asynchronous, "me", &svc)?;
         std::thread::sleep(Duration::from_millis(300));
@@ -193,10 +245,10 @@ pub fn still_answers_after(prop: &str, asynchronous: bool, secs: u64) -> Vec<Fin
             bad.push(("still-answers|silent".to_string(), format!("a {} ServiceDiscovery that answered an SRV question for its own instance no longer answers it {} s later (one short-lived peer was heard in between, nothing was unregistered)", kind, secs)));
         }
         Ok(bad)
-    });
+    }));
     rt.shutdown_timeout(Duration::from_millis(100));
     match r {
-        Err(pn) => vec![finding(format!("{}|longevity|{}", prop, pn.sig()), format!("{:?}", pn), case)],
+        Err(pn) => vec![finding(format!("{}|longevity|panic", prop), pn, case)],
         Ok(Err(_)) => vec![],
         Ok(Ok(bad)) => bad.into_iter().map(|(t, x)| finding(format!("{}|longevity|{}|{}", prop, t, kind), x, case.clone())).collect(),
     }
